@@ -382,6 +382,102 @@ def rule_B(ck, name, f, kdecl):
         ck.ob('B1.report-form', key + '|early', f.where(r), ok, '' if ok else 'early return reports `%s`' % show(a1))
 
 
+# ---------------------------------------------------------------- B5 / B6
+LOCKSTEP = ['cg', 'bicgstab', 'idrs']
+
+
+def coef_text(f, e):
+    e = unwrap(e)
+    neg = False
+    while e is not None and e['k'] == 'un' and e['op'] == '-':
+        neg = not neg
+        e = unwrap(e['e'])
+    return show(e), neg
+
+
+def guards_of(f, n):
+    g = []
+    cur = n
+    for a in f.ancestors(n):
+        if a['k'] == 'if':
+            in_then = a.get('t') is not None and any(x is cur for x in walk(a['t']))
+            g.append(('' if in_then else '!') + show(a['c']))
+        cur = a
+    return g
+
+
+def rule_lockstep(ck, name, f):
+    """solution and carried residual move in lock-step: every  x += c D  is paired with  r -= c V  where V is the image of D
+    under the (preconditioned) operator: V = A D by backend::spmv, or V from preconditioner::spmv(side, P, A, F, V, T) with D = F
+    for left and D = T for right preconditioning.  Necessary for the carried residual to be the residual of the returned x."""
+    key = 'amgcl::solver::' + name
+    al = alias_roots(f)
+    x_root = ('param', 3)
+    prims = [n for n in f.nodes.values() if n['k'] == 'call' and prim_name(n)]
+    # operator images: V -> list of (D candidates with guard requirement)
+    images = []   # (Vroot, Droot, required guard text or None, node)
+    for n in f.nodes.values():
+        if n['k'] != 'call':
+            continue
+        if prim_name(n) == 'spmv':
+            a = n['a']
+            if root_key(f, a[1], al) == ('param', 0) and classify_coef(f, a[0]) == 'identity' and classify_coef(f, a[3]) == 'zero':
+                images.append((root_key(f, a[4], al), root_key(f, a[2], al), None, n))
+        elif n.get('f') == 'amgcl::preconditioner::spmv' and len(n.get('a', [])) == 6:
+            a = n['a']
+            V = root_key(f, a[4], al)
+            images.append((V, root_key(f, a[3], al), 'left', n))
+            images.append((V, root_key(f, a[5], al), 'right', n))
+    updates = []
+    for n in prims:
+        pr = prim_name(n)
+        if pr == 'axpby' and root_key(f, n['a'][3], al) == x_root and classify_coef(f, n['a'][2]) == 'identity':
+            c, neg = coef_text(f, n['a'][0])
+            updates.append((n, c, neg, root_key(f, n['a'][1], al)))
+    dets = []
+    npairs = 0
+    for n, c, neg, D in updates:
+        # the paired residual update: axpby(-c, V, one, R) or axpbypcz(one, R, -c, V, zero, S)
+        partner = None
+        for m in prims:
+            pr = prim_name(m)
+            if pr == 'axpby' and m is not n:
+                c2, neg2 = coef_text(f, m['a'][0])
+                if c2 == c and neg2 != neg and classify_coef(f, m['a'][2]) == 'identity' and root_key(f, m['a'][3], al) != x_root:
+                    partner = (m, root_key(f, m['a'][1], al))
+            elif pr == 'axpbypcz':
+                c2, neg2 = coef_text(f, m['a'][2])
+                if c2 == c and neg2 != neg and classify_coef(f, m['a'][0]) == 'identity' and classify_coef(f, m['a'][4]) == 'zero':
+                    partner = (m, root_key(f, m['a'][3], al))
+        if partner is None:
+            dets.append('the update of x by `%s` at %s has no matching residual update with coefficient -(%s)' % (c, f.where(n), c))
+            continue
+        npairs += 1
+        m, V = partner
+        g = guards_of(f, n)
+        side = None
+        for t in g:
+            if 'pside' in t and 'left' in t:
+                side = 'right' if t.startswith('!') else 'left'
+        cands = [(Dr, req, im) for (Vr, Dr, req, im) in images if Vr == V]
+        ok = any(Dr == D and (req is None or req == side) for (Dr, req, im) in cands)
+        if not ok:
+            want = sorted({str(Dr) for (Dr, req, im) in cands if req is None or req == side})
+            dets.append('x is updated by %s * %s at %s but the residual is updated by the same coefficient times %s, which is the operator image of %s%s: '
+                        'the carried residual no longer belongs to x' % (c, D, f.where(n), V, want or 'nothing', (' for %s preconditioning' % side) if side else ''))
+    ck.ob('B5.lock-step', key, f.where(), not dets and npairs > 0, '; '.join(dets[:2]) if dets else ('' if npairs else 'no paired updates found'))
+    if name == 'idrs':
+        # B6: the two residual-smoothing blocks are the same code
+        import json
+        import c02
+        blocks = [n for n in f.nodes.values() if n['k'] == 'if' and show(n['c']) == 'prm.smoothing' and any(prim_name(c_) == 'axpbypcz' for c_ in walk(n['t']) if c_['k'] == 'call')]
+        forms = [json.dumps(c02.norm_tree(f, b['t'], {}), sort_keys=True) for b in blocks]
+        ok = len(forms) == 2 and forms[0] == forms[1]
+        ck.ob('B6.smoothing-siblings', key, f.where(blocks[-1]) if blocks else f.where(), ok,
+              '' if ok else ('the residual-smoothing blocks after the inner update (%s) and after the omega step (%s) differ' % tuple(f.where(b) for b in blocks[:2]) if len(blocks) == 2
+                             else 'expected two residual-smoothing blocks, found %d' % len(blocks)))
+
+
 def transfer_partial(evs, st, accs):
     fresh, truth, tr = st
     tr = set(tr)
@@ -418,12 +514,16 @@ def main(tier):
     ck.rule('B2.tested-is-reported', 'R is the variable the convergence test compares with eps = max(tol * N, abstol)', 8)
     ck.rule('B3.fresh', 'at every return, no update of the solution accumulator happened after the last R = norm(.)', 8)
     ck.rule('B4.true-residual', 'restarted methods (gmres, fgmres, lgmres, richardson): R is the norm of residual(rhs, A, x, .) recomputed after the last update of x (through P.apply for left preconditioning)', 4)
+    ck.rule('B5.lock-step', 'cg, bicgstab, idrs: every x += c D is paired with a residual update -c V where V is the image of D under the (side-dependent) preconditioned operator', 3)
+    ck.rule('B6.smoothing-siblings', 'idrs: the residual-smoothing block after the inner update and the one after the omega step are the same code', 1)
     seen = set()
     for name, f in solver_functions(units):
         seen.add(name)
         k = rule_A(ck, name, f)
         if k is not None:
             rule_B(ck, name, f, k)
+        if name in LOCKSTEP:
+            rule_lockstep(ck, name, f)
     missing = [s for s in SOLVERS if s not in seen]
     if missing:
         ck.brk('solver classes not instantiated: %s' % missing)
